@@ -51,8 +51,13 @@ IncOk(r) ==
        \* the representation shows in the serialization: a value above INT64_MAX must print as such, a negative one as negative
 SetGetOk(r) == /\ r.got_i64 = r.set_i64 /\ r.got_u64 = r.set_u64 /\ r.got_i32 = r.set_i32 /\ r.got_dbl = r.set_dbl
                /\ r.got_bool /\ r.rets = 5 /\ r.wrong = 0
+\* the small exported functions: constants are what the headers say, the null constructor gives the NULL pointer, json_parse_double
+\* is strtod with a verdict, two default iterators are equal, the key comparisons compare text / identity, and the debug flag reads
+\* back what was set last (1, 0, 1, 0 over two rounds)
+MiscOk(r) == /\ r.version /\ r.sizeof_pos /\ r.null_is_null /\ r.parse_double /\ r.iter_default /\ r.char_equal /\ r.ptr_equal
+             /\ r.debug_seen = <<1, 0, 1, 0>>
 StepOfImpl(s, r) ==
-    [ok |-> CASE r.e = "acc" -> AccOk(r) [] r.e = "inc" -> IncOk(r) [] r.e = "setget" -> SetGetOk(r) [] OTHER -> FALSE, st |-> s]
+    [ok |-> CASE r.e = "misc" -> MiscOk(r) [] r.e = "acc" -> AccOk(r) [] r.e = "inc" -> IncOk(r) [] r.e = "setget" -> SetGetOk(r) [] OTHER -> FALSE, st |-> s]
 TraceLog == ndJsonDeserialize(IOEnv.TRACE)
 T == INSTANCE TraceBase WITH Log <- TraceLog, InitSt <- 0, StepOf <- StepOfImpl, ResyncAtNew <- FALSE
 Spec == T!Spec
